@@ -4,6 +4,8 @@ import HotstuffModel.Proofs.CommitLive
 import HotstuffModel.Proofs.LeaderWindow
 import HotstuffModel.Proofs.PacemakerStuck
 import HotstuffModel.Model.Timer
+import HotstuffModel.Proofs.ProposerWait
+import HotstuffModel.Properties.C17
 /-!
 # C06 — Liveness with up to f crashed nodes (PARTIAL: enabling lemmas)
 
@@ -207,6 +209,48 @@ theorem timer_new_fires_after_duration (d t0 now : Nat) :
 example :
     Timer.fired (Timer.resets (Timer.new 1000 0) [400, 900]) 1899 = false ∧
     Timer.fired (Timer.resets (Timer.new 1000 0) [400, 900]) 1900 = true := by
+  decide
+
+/-! ### The proposer's wait for acknowledgements (`Proposer::make_block`, `HS.PW`)
+
+After broadcasting a block the proposer takes no further message until the peers that acknowledged it
+hold, with the node itself, a quorum of the stake (`Gen.proposerQuorum`, regenerated from the source).
+A crashed peer never acknowledges, so progress needs this wait to end on the honest peers alone. -/
+
+/-- (L12) The wait never depends on a faulty peer: with Byzantine/crashed stake at most `f`, once the
+waiters of all non-faulty peers have completed — in whatever order, interleaved with whatever else —
+the loop has left through its `break`; and it leaves at the FIRST completion at which the stake
+gathered reaches the quorum, not later. -/
+theorem proposer_wait_ends_with_honest_acks (c : Committee) (hc : c.WF) (bad : Nat → Bool)
+    (hn1 : 1 ≤ c.total) (hn2 : c.total < 2 ^ 31) (hbad : c.weight (c.keys.filter bad) ≤ C17.f c.total)
+    (own : Nat) (names : List Nat) (hne : names ≠ [])
+    (hall : ∀ k ∈ c.keys, bad k = false → k = own ∨ k ∈ names) :
+    (PW.wait c.quorum (c.stake own) (names.map c.stake)).2 = true ∧
+    (∀ j, 0 < j → j < (PW.wait c.quorum (c.stake own) (names.map c.stake)).1 →
+      ¬ c.quorum ≤ c.stake own + ((names.map c.stake).take j).sum) := by
+  have hq := C17.honest_form_quorum c hc bad hn1 hn2 hbad
+  have hnd : (c.keys.filter (fun x => !bad x)).Nodup := List.Nodup.sublist List.filter_sublist hc
+  have hsub : ∀ x ∈ c.keys.filter (fun x => !bad x), x ∈ own :: names := by
+    intro x hx
+    simp only [List.mem_filter, Bool.not_eq_eq_eq_not, Bool.not_true] at hx
+    rcases hall x hx.1 hx.2 with h | h
+    · simp [h]
+    · simp [h]
+  have hle := Q.weight_le_of_subset c.stake _ _ hnd hsub
+  have hbreak : (PW.wait c.quorum (c.stake own) (names.map c.stake)).2 = true := by
+    rw [PW.wait_breaks_iff]
+    refine ⟨by simpa using hne, ?_⟩
+    simp only [Committee.weight_eq, Q.weight_cons] at hq hle
+    unfold Q.weight at hle hq
+    omega
+  exact ⟨hbreak, (PW.wait_stops_at_first_crossing _ _ _ hbreak).2⟩
+
+/-- Non-vacuity of L12: four equal stakes, peer 4 crashed; the ACKs of 2 and 3 end node 1's wait, at the
+second completion. -/
+example :
+    let c : Committee := ⟨[(1, 1), (2, 1), (3, 1), (4, 1)]⟩
+    c.WF ∧ c.weight (c.keys.filter (fun k => k == 4)) ≤ C17.f c.total ∧
+    PW.wait c.quorum (c.stake 1) ([2, 3].map c.stake) = (2, true) := by
   decide
 
 /-! ### Why the premise "messages are not lost" is needed
